@@ -7,6 +7,7 @@
 -/
 import RsjProofs.Lexer
 import RsjProofs.LexerNoPanic
+import RsjProofs.LexerSuffix
 import RsjProofs.Utf8Spec
 import RsjProofs.Utf8Lossy
 import RsjProofs.LexerStrings
@@ -69,6 +70,17 @@ theorem C14_drop_trivia (input : List Nat) :
     lexAll input false = (lexAll input true).dropTrivia := by
   unfold lexAll
   exact lexLoop_drop _ _ []
+
+/-- **C14 tokens_from_next_token.** Every token of a successful `lex_to_eof` is
+    exactly what `next_token` returns at the token's own start offset, and the
+    lexer resumes at the token's end offset over the same input.  This is what
+    makes the per-token theorems below (stated for `nextToken` at an arbitrary
+    cursor) apply to every token of every lexed input. -/
+theorem C14_tokens_from_next_token (input : List Nat) (flag : Bool) (toks : List Token)
+    (h : lexAll input flag = .ok toks) :
+    ∀ t ∈ toks, nextToken ⟨t.start, input.drop t.start⟩ = .tok t.kind ⟨t.stop, input.drop t.stop⟩ := by
+  unfold lexAll at h
+  exact lexLoop_orig input flag _ ⟨0, input⟩ [] toks (by simp) (by intro t ht; cases ht) h
 
 /-! Non-vacuity: concrete inputs with every trivia kind, lexed by kernel evaluation. -/
 example : lexAll (bytesOf "x/*c*/ +1") true =
@@ -203,6 +215,16 @@ theorem C14_number_value (c c' : Cur) (digits : List Nat) (exp : Int)
   rw [h1, h2]
   exact LitParts.value_eq _
 
+/-- The same for the tokens of a whole input: each number token of
+    `lex_to_eof` denotes the value of the input slice it spans. -/
+theorem C14_number_value_lexAll (input : List Nat) (flag : Bool) (toks : List Token)
+    (h : lexAll input flag = .ok toks) (t : Token) (ht : t ∈ toks) (digits : List Nat) (exp : Int)
+    (hk : t.kind = .number digits exp) :
+    numValue digits exp = litValue ((input.drop t.start).take (t.stop - t.start)) := by
+  have ho := C14_tokens_from_next_token input flag toks h t ht
+  rw [hk] at ho
+  exact (C14_number_value _ _ digits exp ho).2.2
+
 /-! Non-vacuity: `1_0.2_5e-1_2` is the token (digits "1025", exp −14). -/
 example : nextToken ⟨0, bytesOf "1_0.2_5e-1_2+"⟩ =
     .tok (.number (bytesOf "1025") (-14)) ⟨12, bytesOf "+"⟩ := by decide
@@ -267,6 +289,10 @@ open Rsj.Lexer in
 #print axioms C14_lex_total
 open Rsj.Lexer in
 #print axioms C14_drop_trivia
+open Rsj.Lexer in
+#print axioms C14_tokens_from_next_token
+open Rsj.Lexer in
+#print axioms C14_number_value_lexAll
 open Rsj.Lexer in
 #print axioms C14_decode_matches_spec
 open Rsj.Lexer in
